@@ -7,6 +7,7 @@ evaluation calls. Model: rows of the file + "last effective factor".
 """
 import copy
 import datetime
+import os
 
 import numpy
 
@@ -356,6 +357,20 @@ def _execute(scn, ctx, store, clock, rng):
                 frac = (decimal_year(t + datetime.timedelta(1)) - decimal_year(st)) / dur
                 factor['alts'] = [frac]
                 ctx.count('rare:scale_to_date_in_window')
+                # time-zone seam: the elapsed fraction is calendar arithmetic on the given dates and must not depend on
+                # the zone (or daylight-saving rules) the process happens to run in
+                tz_now = scn.get('tz', 'UTC')
+                cur_tz_ = os.environ.get('TZ', 'UTC')
+                set_tz('UTC')
+                try:
+                    dur0 = decimal_year(en) - decimal_year(st)
+                    frac0 = (decimal_year(t + datetime.timedelta(1)) - decimal_year(st)) / dur0
+                finally:
+                    set_tz(cur_tz_)
+                if hexf(frac0) != hexf(frac):
+                    ctx.violate('C11', 'scale_history', 'SCALE_TO_DATE:factor-depends-on-process-time-zone',
+                                {'op': oi, 'tz': cur_tz_, 'factor': frac, 'factor_in_utc': frac0})
+                    return
             else:
                 # docstring: "scale the forecast by unity"; code: leaves the factor. Both accepted.
                 factor['alts'] = [factor['v'], 1]
